@@ -148,7 +148,12 @@ def mux_text(what):
             'part of the contract). ' + what + ' TLC model-checks the list semantics against independent '
             'formulations of the statement (ListSemCheck.tla) and judges every execution recorded from '
             'the real code, with a tap at every boundary, through MuxTrace.tla; only clauses belonging to '
-            'this property count as its violations.')
+            'this property count as its violations. The executions vary more than the inputs: interleavings '
+            'and key-slot histories, one python operator object / pipeline list used at several places, a '
+            'warm-up subscription of the same piped observable disposed mid-stream, re-entrant delivery (the '
+            'subscriber pushes the next item from inside on_next), the multi-source form of with_store, '
+            'sources that deliver inside subscribe(); every case is also run with taps at the two ends only '
+            'and must give the same outputs.')
 
 
 MUX = {
